@@ -50,6 +50,10 @@ CHECKS['C11'] = ('E3', 'fault_enumeration',
     'Real TCPServer connection, UNIXClient, TCPClient and File components on a real poller, with the OS write call scripted: every send()/os.write() is a choice point {accept all, 1 byte, n-1 bytes, EAGAIN, EINTR, ENOBUFS, EPIPE, ECONNRESET}; for every program (1-3 write events with payloads of 0/1/3 distinct bytes, close request at any position or none, all events at once or one per loop iteration) every answer script with <=k non-default answers (quick 2, thorough 3; fatal answers sticky) is executed. On every execution: the accepted bytes are always a prefix of the payload concatenation, at quiescence nothing written before the close request (or nothing at all) is missing, close/shutdown happens only after that and only if requested, no write call after close, a fatal answer is signalled by an error/disconnect event.',
     'Trusted: scripted socket/file doubles (subclasses around real descriptors passed through public constructors); EAGAIN==EWOULDBLOCK on Linux; ENOBUFS not offered to File; multi-megabyte payloads are not in the alphabet.',
     'deviation-bounded exhaustive fault enumeration of send() outcomes against the real endpoint components', 'DESIGN.md 3/E3, 6/C11')
+CHECKS['C12'] = ('E1', 'model_checking',
+    'Explicit-state BFS over histories of peer actions (connect, send 1/5/5124 bytes, shutdown(WR), close, close with unread data) and server-side actions (write, 1 MiB write while the peer does not read, close, and late write/close after the disconnect) on up to two concurrent connections to a real UNIXServer, replayed on fresh sockets under Select, Poll and EPoll with deterministic zero-time-out loop iterations; plus client histories for a real UNIXClient against a harness-driven listener. Judged on every state: per socket the observer stream is connect, read*, disconnect with nothing afterwards; read data equals (or, if the server closed, is a prefix of) what the peer sent; every ended connection gets its disconnect; after the disconnect neither the server (_clients/_buffers/_closeq) nor the poller (_read/_write/_targets/_map) retains the socket; no handler raises; the three pollers show the same streams; one disconnected per connected on the client.',
+    'Trusted: AF_UNIX semantics (synchronous peer effects); TCP RST via SO_LINGER is not in the alphabet; residue clause reads internal tables through getattr.',
+    'explicit-state BFS over connection histories on real sockets under three pollers', 'DESIGN.md 6/C12')
 NOT_YET = {}
 def main():
     props = [json.loads(l) for l in open(os.path.join(HERE, 'properties.jsonl'))]
